@@ -66,6 +66,44 @@ CLAIMS = {
         "state path at every snap.* step of real commands, restoring each capture in a fresh router, and by parking one command inside its "
         "snapshot while another runs.",
    note=TB + "The OS is modelled (atomic rename, kill between syscalls). T1 facts: saveStateSnapshot's step skeleton (lock, CreateTemp in the same directory, Rename)."),
+
+'C01': dict(engine='proxy', technique='Lean 4 proof (step-level theorems on the concurrent timed model + kernel-evaluated schedules) + differential correspondence run under a deterministic scheduler (synctest, hook parking)',
+   text="Theorems: a target is promoted and signals only on a successful probe of an adding target; the deploy passes its wait only when every "
+        "target of the new load balancer has signalled, otherwise it stays put until the deadline and then reports failure leaving table and "
+        "service objects untouched, with every probe loop of the new targets stopped; a claim only returns a member of the picked load "
+        "balancer's rotation. Tied by random schedules with failing/hanging/late probes and requests at any point, compared on deploy "
+        "results and on which generation's targets ever receive a client request.",
+   note=TB + "M4 is an interpreter of schedules; its atomic steps follow the code incl. its known defects. Partial: the theorems are about the model's step functions (local), whole-schedule invariants are carried by kernel-checked witnesses/tests and the correspondence run; probe I/O kinds are abstracted."),
+ 'C02': dict(engine='proxy', technique='Lean 4 proof (step-level theorems + kernel-checked counter-example to the full statement) + differential correspondence run under a deterministic scheduler',
+   text="The full statement is FALSE of the code (theorem C02_witness_stale_claim_refused, finding F2, replayed on the real code every run). "
+        "Proved: the table swap is a single in-place update (no 404 window, other services untouched); after the F1 repair the healthy signal "
+        "is raised only together with the rotation refresh. Every other way of failing shows as a divergence between the real Router and the "
+        "model on random schedules with requests parked at the route/gate/pick hooks across deploy steps.",
+   note=TB + "M4 is an interpreter of schedules; its atomic steps follow the code incl. its known defects. Partial: the theorems are about the model's step functions (local), whole-schedule invariants are carried by kernel-checked witnesses/tests and the correspondence run; probe I/O kinds are abstracted."),
+ 'C03': dict(engine='proxy', technique='Lean 4 proof (step-level theorems + kernel-checked counter-examples) + differential correspondence run under a deterministic scheduler',
+   text="Proved: no claim succeeds on a draining target; a drain ends only when its snapshot has finished or at start+drain-timeout, and is "
+        "enabled (hence taken, time cannot pass) at that point; a request cut by a drain ends 504. The full statement is FALSE of the code "
+        "in classes F2' (served by a replaced target after deploy returned), F12 (overlapping drain returns at once) and F16 (overlapping "
+        "deploys orphan a load balancer): kernel-checked witnesses, each replayed on the real code every run.",
+   note=TB + "M4 is an interpreter of schedules; its atomic steps follow the code incl. its known defects. Partial: the theorems are about the model's step functions (local), whole-schedule invariants are carried by kernel-checked witnesses/tests and the correspondence run; probe I/O kinds are abstracted."),
+ 'C07': dict(engine='proxy', technique='Lean 4 proof (gate semantics at step level + kernel-checked counter-examples) + differential correspondence run under a deterministic scheduler',
+   text="Proved: a request reaching a paused gate is held with deadline arrival+max-pause and claims nothing; it moves only on release "
+        "(stopped => 503, else proceeds) or at its deadline (504), not earlier; the health-check GET gets 200 whenever the gate is not "
+        "running; a repeated pause does not release waiters. The clauses 'forwarded to the targets the service has at that moment' and "
+        "'pause never causes a refusal' are FALSE of the code (F2c, F2d: kernel-checked witnesses replayed every run).",
+   note=TB + "M4 is an interpreter of schedules; its atomic steps follow the code incl. its known defects. Partial: the theorems are about the model's step functions (local), whole-schedule invariants are carried by kernel-checked witnesses/tests and the correspondence run; probe I/O kinds are abstracted."),
+ 'C09': dict(engine='proxy', technique='Lean 4 proof (rotation arithmetic, refresh, probe transitions + kernel-checked counter-example) + differential correspondence run under a deterministic scheduler',
+   text="Proved: k consecutive claims visit every rotation position exactly once (strict fairness); a claim returns the next rotation member; "
+        "refresh makes the rotation exactly the healthy targets in order; empty rotation claims nothing (503); probe transitions "
+        "(fail: healthy->unhealthy, success: anything->healthy). 'A target whose latest probe failed receives no new requests' is FALSE "
+        "when the failed probe falls into a drain (F19: kernel-checked witness replayed every run).",
+   note=TB + "M4 is an interpreter of schedules; its atomic steps follow the code incl. its known defects. Partial: the theorems are about the model's step functions (local), whole-schedule invariants are carried by kernel-checked witnesses/tests and the correspondence run; probe I/O kinds are abstracted."),
+ 'C17': dict(engine='proxy', technique='Lean 4 proof (deadline enabledness at step level + kernel-evaluated schedules) + differential correspondence run on the virtual clock',
+   text="Proved: at the deploy deadline the waiting step is enabled whatever targets do, and it is enabled as soon as all have signalled; each "
+        "drain has deadline start+drain-timeout and is enabled at it or as soon as its snapshot finished; a stopped probe loop never fires. "
+        "Tied by comparing the virtual return time of every command and every probe sent on random schedules. F16 (orphaned load balancer "
+        "probed forever) is a recorded finding.",
+   note=TB + "M4 is an interpreter of schedules; its atomic steps follow the code incl. its known defects. Partial: the theorems are about the model's step functions (local), whole-schedule invariants are carried by kernel-checked witnesses/tests and the correspondence run; probe I/O kinds are abstracted." + " Real elapsed time is outside the model."),
 }
 
 NA_REASON = {}
